@@ -213,7 +213,7 @@ func execute(s sink.Sink, seed int64, sc scen.Scenario, tg trigger, sample bool)
 	fired := false
 	hadVersion := true
 	var advErr error
-	var oldVer, advNewest uint64
+	var oldVer uint64
 	var problems []string
 	newestAtA := func(id channel.ID) (uint64, *channel.State) {
 		var v uint64
@@ -270,7 +270,7 @@ func execute(s sink.Sink, seed int64, sc scen.Scenario, tg trigger, sample bool)
 			return
 		}
 		old := txs[tg.Version]
-		oldVer, advNewest = old.Current.State.Version, txs[len(txs)-1].Current.State.Version
+		oldVer = old.Current.State.Version
 		// sub-channel states for locked funds: the oldest recorded one
 		var subs []channel.SignedState
 		for _, la := range old.Current.State.Locked {
@@ -370,15 +370,26 @@ func execute(s sink.Sink, seed int64, sc scen.Scenario, tg trigger, sample bool)
 	}
 	id := r.Ch[0].ID()
 	newest, newestState := newestAtA(id)
-	// harness window: a state enabled before the watcher was attached never reached it
+	// harness window: a state enabled before the publisher was installed (Channel.Watch runs
+	// concurrently with the first updates) never reaches the watcher. Publications happen in
+	// enabling order, so the window is over once any older version has been published.
 	pubOK := newest == 0
+	neverPublished := false
 	for _, v := range A.Published(id) {
 		if v == newest {
 			pubOK = true
 		}
 	}
-	inWindow := tg.Kind != "between" && newest > advNewest
-	_ = inWindow
+	if !pubOK {
+		for _, v := range A.Published(id) {
+			if v < newest {
+				pubOK, neverPublished = true, true
+			}
+		}
+	}
+	if neverPublished {
+		s.Count("newest_state_never_published_although_older_ones_were", 1)
+	}
 	regVer, _, isReg := r.W.Ledger.Registered(id)
 	nontrivial := oldVer < newest
 	if !pubOK {
@@ -398,6 +409,13 @@ func execute(s sink.Sink, seed int64, sc scen.Scenario, tg trigger, sample bool)
 			if v == newestX && i < len(ss) {
 				pubNewest = ss[i]
 				break
+			}
+		}
+		if pubNewest < 0 {
+			for _, v := range vs {
+				if v < newestX {
+					return "newest-state-never-published-to-the-watcher"
+				}
 			}
 		}
 		for _, d := range r.W.Ledger.Deliveries() {
